@@ -222,6 +222,24 @@ fn case(rep: &mut Report, seed: u64, index: u64) {
             }
         }
     }
+    // the same bytes through readers that are not slices: a few bytes per call, and `Interrupted` (which io::Read documents
+    // as "retry") on the very first call / on every other call / on every third call. Zero bytes are an empty map here too.
+    for mode in [0u8, 3, 4, 2] {
+        rep.count(&format!("reader-kind.mode{}", mode));
+        let res = catch(|| {
+            let r = crate::c13::SlowReader { data: &bytes, pos: 0, mode, rng: Rng::new(index ^ mode as u64), calls: 0 };
+            Attributes::from_reader(r).map(|b| canon::attributes(&b, &no)).map_err(|e| e.to_string())
+        });
+        match res {
+            Ok(Ok(got)) => {
+                if canon::diff(&exp, &got).is_some() {
+                    rep.violation(&format!("C14:reader-kind:changed:mode{}", mode), &format!("decoding the same {} bytes through a short / interrupted reader (mode {}) gives another map", bytes.len(), mode), replay.clone(), J::Null);
+                }
+            }
+            Ok(Err(e)) => rep.violation(&format!("C14:reader-kind:error:mode{}", mode), &format!("decoding its own {} bytes through a short / interrupted reader (mode {}) fails: {}", bytes.len(), mode, e), replay.clone(), J::Null),
+            Err(p) => rep.violation(&format!("C14:reader-kind:{}", panic_sig(&p)), &format!("from_reader panicked behind a short / interrupted reader: {}", p.msg), replay.clone(), J::Null),
+        }
+    }
     if rep.has_caselog() {
         // DOM-level: the blob both file formats store for the Attributes property
         // three instances of one class: a longer map before the map under test and an empty one after it,
